@@ -31,6 +31,7 @@ Proof.
   - intros m [].
   - discriminate.
   - discriminate.
+  - exact Logic.I.
 Qed.
 
 (* the client starts *)
@@ -46,6 +47,8 @@ Proof.
     rewrite Ei in A. discriminate.
   - rewrite started_state. discriminate.
   - rewrite started_state. discriminate.
+  - pose proof (si_emit _ _ _ _ _ _ S) as X. destruct srv as [[[? ?] ?] |]; [| exact Logic.I].
+      intros x Hx. apply in_or_app. left. apply X. exact Hx.
 Qed.
 
 (* the server's part and the old outputs, when only the client moves *)
@@ -82,6 +85,7 @@ Proof.
       exact (si_ck _ _ _ _ _ _ S A B).
     + intro A. rewrite Hst in A. destruct Hq as [-> | (_ & _ & Q)]; [| contradiction].
       exact (si_ag _ _ _ _ _ _ S A).
+    + exact (si_emit _ _ _ _ _ _ S).
   - (* a handler before CertificateVerify succeeded *)
     subst out0. cbn [map]. rewrite app_nil_r. constructor; cbn [y_c y_s y_out y_sdead y_cdead].
     + right; exact Hc'.
@@ -89,6 +93,7 @@ Proof.
     + intros x Hin. eapply old_out_ok; eauto; intro A; contradiction.
     + intro A. contradiction.
     + intro A. contradiction.
+    + exact (si_emit _ _ _ _ _ _ S).
   - (* EncryptedExtensions of a resumed handshake *)
     subst out0. cbn [map]. rewrite app_nil_r. constructor; cbn [y_c y_s y_out y_sdead y_cdead].
     + right; exact Hc'.
@@ -96,6 +101,7 @@ Proof.
     + intros x Hin. eapply old_out_ok; eauto; intro A; rewrite Hs in A; discriminate.
     + intros _ B. rewrite Hr in B. discriminate.
     + intro A. rewrite Hs' in A. discriminate.
+    + exact (si_emit _ _ _ _ _ _ S).
   - (* CertificateVerify accepted: the signature is known to the adversary *)
     subst out0. cbn [map]. rewrite app_nil_r. constructor; cbn [y_c y_s y_out y_sdead y_cdead].
     + right; exact Hc'.
@@ -106,6 +112,7 @@ Proof.
       split; [eapply kn_parse_cv; [exact Km | exact Pv | left; reflexivity] |].
       split; [rewrite Pe; exact Sv | exact Kv].
     + intro A. rewrite Hs' in A. discriminate.
+    + exact (si_emit _ _ _ _ _ _ S).
   - (* Finished accepted *)
     constructor; cbn [y_c y_s y_out y_sdead y_cdead].
     + right; exact Hc'.
@@ -116,6 +123,8 @@ Proof.
     + intro A. rewrite Hs' in A. discriminate.
     + intros _. exists (y_out y). split; [intros x Hx; apply knows_app_l; exact Hx |].
       intro Hsec. eapply (fin_provenance O adv cc sc I2 Hpair y srv ms m c' out0); eauto.
+    + pose proof (si_emit _ _ _ _ _ _ S) as X. destruct srv as [[[? ?] ?] |]; [| exact Logic.I].
+      intros x Hx. apply in_or_app. left. apply X. exact Hx.
 Qed.
 
 Lemma SI_to_server : forall y srv m,
@@ -135,6 +144,7 @@ Proof.
       right; right. exact A.
     + exact (si_ck _ _ _ _ _ _ S).
     + exact (si_ag _ _ _ _ _ _ S).
+    + exact (si_emit _ _ _ _ _ _ S).
   - destruct Ss as [Es Hi]. specialize (Hi Ed).
     destruct (server_first_step O sc _ m o s' out0 Es E) as [(Eo & Fm & Hh) | (E0 & Hst & Hq)].
     + (* the flight *)
@@ -153,6 +163,7 @@ Proof.
       * intro A. destruct (si_ag _ _ _ _ _ _ S A) as (outs_t & Hm & Hag). exists outs_t.
         split; [intros x Hx; apply knows_app_l; apply Hm; exact Hx |].
         intro Hsec. destruct (Hag Hsec) as (a & b & c0 & X & _). discriminate X.
+      * intros x Hx. apply in_or_app. right. exact Hx.
     + (* no answer *)
       subst out0. exists None. cbn [map]. rewrite app_nil_r.
       constructor; cbn [y_c y_s y_out y_sdead y_cdead].
@@ -162,6 +173,7 @@ Proof.
         right; right. exact A.
       * exact (si_ck _ _ _ _ _ _ S).
       * exact (si_ag _ _ _ _ _ _ S).
+      * exact Logic.I.
 Qed.
 
 Lemma SI_step : forall y srv e,
